@@ -1,12 +1,14 @@
 SPECIFICATION Spec
 CONSTANTS
   MaxSlots = 3
-  OnlyEq = FALSE
+  Only = "all"
+INVARIANT CasesValid
 INVARIANT SigsScoped
 INVARIANT InferRecovers
 INVARIANT InferMidTotal
 INVARIANT MonoClosed
 INVARIANT MonoComposes
+INVARIANT InstancesFollow
 INVARIANT PartialThenRest
 INVARIANT HugrIdxDense
 INVARIANT OpenIsHugrExpressible
